@@ -52,7 +52,7 @@ def main():
     if argv[:1] == ["-j"]:
         j = int(argv[1])
         argv = argv[2:]
-    seeds = argv or sorted(os.listdir(os.path.join(VERIF, "seeded")))
+    seeds = argv or sorted(d for d in os.listdir(os.path.join(VERIF, "seeded")) if os.path.isdir(os.path.join(VERIF, "seeded", d)))
     for s in range(j):
         wt = "/tmp/mx-%d" % s
         if not os.path.isdir(wt):
